@@ -20,7 +20,8 @@ with open(os.path.join(os.path.dirname(os.path.dirname(os.path.abspath(__file__)
 
 QUOTED = re.compile(r'"([^"]*)"')
 VN = 0x6162636465666768   # vnode ids with no zero byte: a text slice that starts one byte early would show it
-NPAT = 5
+NPAT = 6
+SPECIAL = '{}%s\\{0}$(['
 
 
 def text(L, pattern):
@@ -35,6 +36,8 @@ def text(L, pattern):
         s = 'z' * r + '€' * (L // 3)
     elif pattern == 3:   # only separators: every chunk ends (and begins) with '/'
         s = '/' * L
+    elif pattern == 5:   # characters that mean something to str.format, %-formatting and regexes
+        s = ''.join(SPECIAL[i % len(SPECIAL)] for i in range(L))
     else:                # blanks and dots: every chunk ends with a character a careless strip() would eat
         s = ''.join(' .'[i % 2] for i in range(L))
     assert len(s.encode()) == L, (L, pattern)
@@ -214,7 +217,7 @@ class C08(Check):
     pid = 'C08'
     level = 'model_checking'
     rule = ('texts of every byte length 0..184 x 5 content patterns (ASCII; 2-byte and 3-byte UTF-8 characters placed to '
-            'straddle record boundaries; all separators; blanks and dots) chunked kernel-style: (a) stand-alone VFS_LOOKUP, TRACE_STRING_GLOBAL (lengths '
+            'straddle record boundaries; all separators; blanks and dots; characters that mean something to str.format, %-formatting and regexes) chunked kernel-style: (a) stand-alone VFS_LOOKUP, TRACE_STRING_GLOBAL (lengths '
             '0..184) and THREADNAME / THREADNAME_PREV (0..63) record sequences, bare and with an unrelated same-thread record (undecoded, unknown, decodable NONE, a kernel trace-data record with non-text bytes, a VFS_LOOKUP_DONE record, the own terminate record of the thread, the lost-events marker, a complete START/END pair) in every gap between the chunk records, and preceded by the START record of an earlier text whose END was lost - exactly one trace with exactly the text (and '
             'vnode id / string id), tables hold exactly the announced text; (b) every path-taking BSD decoder (66 names, frozen '
             'slot table) x one lookup of every length x patterns; x k in {0,1,2,3,6} lookups of boundary lengths '
